@@ -2,5 +2,7 @@
 # tools/seed_check.sh <seed dir> <PID> [tier]: apply the seeded patch to /repo, run the check, undo the patch.
 d=$1; pid=$2; tier=${3:-quick}
 git -C /repo apply "$d/patch.diff" || { echo "PATCH DOES NOT APPLY: $d"; exit 2; }
+bk=$(mktemp -d); cp -a /verif/evidence/. $bk/   # evidence files must only ever come from the unchanged tree
 ( cd /verif && ./check $pid --tier $tier 2>&1 | grep -E "^VIOLATION|^KNOWN|^HARNESS|^C[0-9]+ \[" | head -${4:-5} )
 git -C /repo apply -R "$d/patch.diff"
+rm -rf /verif/evidence/C*.json; cp -a $bk/. /verif/evidence/; rm -rf $bk
